@@ -265,14 +265,26 @@ impl Conditional<f64> for BiGauss {
 
 struct EndToEnd;
 
-const CONFIGS: &[&str] = &["mh_gauss", "mh_poisson_asym", "mh_table_asym", "gibbs_bigauss", "hmc_gauss", "hmc_gauss_many_leapfrogs", "nuts_gauss", "nuts_gauss_3d"];
+const CONFIGS: &[&str] = &["mh_gauss", "mh_poisson_asym", "mh_table_asym", "gibbs_bigauss", "hmc_gauss", "hmc_gauss_many_leapfrogs", "nuts_gauss", "nuts_gauss_3d", "mh_gamma", "hmc_gamma"];
+
+/// Gamma(k, 1) written the naive way, (k-1) ln x - x: NaN for x < 0, as user targets with a restricted
+/// support often are; mean k, variance k
+#[derive(Clone)]
+struct NaiveGamma {
+    k: f64,
+}
+impl Target<f64, f64> for NaiveGamma {
+    fn unnorm_logp(&self, x: &[f64]) -> f64 {
+        x.iter().map(|v| (self.k - 1.0) * v.ln() - v).sum()
+    }
+}
 
 impl Scenario for EndToEnd {
     fn name(&self) -> &'static str {
         "stationary_chains"
     }
     fn runs(&self, tier: Tier) -> u64 {
-        tier.pick(16, 320)
+        tier.pick(20, 320)
     }
     fn generate(&self, g: &mut Gen, tier: Tier, idx: u64) -> Value {
         json!({"config": CONFIGS[(idx % CONFIGS.len() as u64) as usize], "gseed": g.u64(), "seed": g.u64(), "k": tier.pick(64, 128), "t": tier.pick(300, 600)})
@@ -475,6 +487,59 @@ impl Scenario for EndToEnd {
                     st.z("x0^2", &f00, 1.0);
                     st.z("x0 x1", &f01, rho);
                     info = json!({"rho": rho, "chains": kk});
+                }
+                // restricted support with NaN outside: candidates / trajectories that leave it must be refused, or
+                // the chain escapes and the averages go with it
+                "mh_gamma" | "hmc_gamma" => {
+                    let kshape = g.usize(2, 5) as f64;
+                    let kk = 4 * k;
+                    let draw = |g: &mut Gen| -> f64 { (0..kshape as usize).map(|_| -(1.0 - g.f64()).ln()).sum() };
+                    let (mut f1, mut f2) = (vec![], vec![]);
+                    if cfg == "mh_gamma" {
+                        let starts: Vec<Vec<f64>> = (0..kk).map(|_| vec![draw(&mut g)]).collect();
+                        let std = g.f64_in(0.8, 2.5);
+                        let mut s = MetropolisHastings::new(NaiveGamma { k: kshape }, IsotropicGaussian::<f64>::new(std), starts).seed(seed);
+                        for c in s.chains.iter_mut() {
+                            let (mut a1, mut a2) = (0.0, 0.0);
+                            for _ in 0..t_len {
+                                let x = c.step()[0];
+                                a1 += x;
+                                a2 += (x - kshape).powi(2);
+                            }
+                            f1.push(a1 / t_len as f64);
+                            f2.push(a2 / t_len as f64);
+                        }
+                        st.o.work = (kk * t_len) as u64;
+                        info = json!({"shape": kshape, "proposal_std": std, "chains": kk});
+                    } else {
+                        let mut t = GTarget::new(GKind::HalfLineLog, 1);
+                        t.c = 0.0;
+                        // HalfLineLog is ln x - x = Gamma(2, 1)
+                        let kshape = 2.0;
+                        let draw2 = |g: &mut Gen| -> f64 { -(1.0 - g.f64()).ln() - (1.0 - g.f64()).ln() };
+                        let starts: Vec<Vec<f64>> = (0..kk).map(|_| vec![draw2(&mut g)]).collect();
+                        let (eps, l) = (g.f64_in(0.2, 0.6), g.usize(2, 5));
+                        let mut h = HMC::<f64, BF64, GTarget>::new(t, starts, eps, l).set_seed(seed);
+                        let mut a1 = vec![0.0; kk];
+                        let mut a2 = vec![0.0; kk];
+                        for _ in 0..t_len {
+                            h.step();
+                            let x = h.positions.to_data().convert::<f64>().to_vec::<f64>().unwrap();
+                            for c in 0..kk {
+                                a1[c] += x[c];
+                                a2[c] += (x[c] - kshape).powi(2);
+                            }
+                        }
+                        f1 = a1.iter().map(|v| v / t_len as f64).collect();
+                        f2 = a2.iter().map(|v| v / t_len as f64).collect();
+                        st.o.work = (kk * t_len) as u64;
+                        st.z("x", &f1, kshape);
+                        st.z("(x-k)^2", &f2, kshape);
+                        info = json!({"shape": kshape, "eps": eps, "L": l, "rows": kk});
+                        return (st.n_stats, st.worst);
+                    }
+                    st.z("x", &f1, kshape);
+                    st.z("(x-k)^2", &f2, kshape);
                 }
                 "hmc_gauss" | "hmc_gauss_many_leapfrogs" => {
                     let d = g.usize(2, 4);
